@@ -49,6 +49,15 @@ func mboxFam(name string, depth int, oracles []string, nsess int, sel []string, 
 	}}}
 }
 
+// idleBulkFam: gluon's default configuration buffers what is pushed during IDLE (bulk time); with a bulk time far
+// above the length of a run the buffer is only emptied when IDLE ends, which makes that path deterministic: everything
+// must reach the client before the completion result of DONE.
+func idleBulkFam(name string, depth int, oracles []string, alphabet []explore.Event) explore.Family {
+	return explore.Family{Name: name, Scenario: "mbox", Depth: depth, Params: MboxParams{mbox.Params{
+		NSess: 2, Mailboxes: []string{"m2"}, Init: baseInit, Alphabet: alphabet, Oracles: oracles, Hold: true, IdleBulkMS: 3600000,
+	}}}
+}
+
 // Event families shared by C01 / C02 / C05 (O = session 0, A = session 1, B = session 2 selected on m2).
 func famArrivalFlags() []explore.Event {
 	return []explore.Event{
@@ -150,6 +159,7 @@ func sessionFamilies(oracles []string, d, dUnion int) []explore.Family {
 		mboxFam("own-commands", d, oracles, 2, nil, famOwn()),
 		mboxFam("flag-replace", d, oracles, 2, nil, famFlagReplace()),
 		mboxFam("union", dUnion, oracles, 3, sel3, famUnion()),
+		idleBulkFam("idle-bulk", d, oracles, famIdle()),
 	}
 }
 
